@@ -14,6 +14,7 @@ class PropertyViolation(Exception):
 
 
 _depth = [0]
+ERRORS = []   # exceptions raised by monitor conditions (harness bugs)
 
 
 def in_monitor():
@@ -112,9 +113,35 @@ def ensure(condition, counter=None):
                 kw['result'] = result
             if counter is not None:
                 counter[0] += 1
-            if condition(**kw) is False:
+            try:
+                ok = condition(**kw)
+            except Exception as ex:  # noqa: BLE001 - a bug of the monitor must
+                # never surface inside the library call it observes
+                import traceback
+                ERRORS.append(f'{condition.__name__}: {type(ex).__name__}: {ex}\n'
+                              + traceback.format_exc()[-1500:])
+                return result
+            if ok is False:
                 raise PropertyViolation(f'{condition.__name__} failed')
             return result
         wrapper.__wrapped_original__ = fn
         return wrapper
     return deco
+
+
+def safe(condition):
+    """wrap a condition for icontract: exceptions of the monitor itself are
+    recorded in ERRORS (-> harness_error / inconclusive) instead of surfacing
+    inside the observed library call"""
+    import functools
+
+    @functools.wraps(condition)
+    def wrapper(*args, **kwargs):
+        try:
+            return condition(*args, **kwargs)
+        except Exception as ex:  # noqa: BLE001
+            import traceback
+            ERRORS.append(f'{condition.__name__}: {type(ex).__name__}: {ex}\n'
+                          + traceback.format_exc()[-1500:])
+            return True
+    return wrapper
